@@ -87,7 +87,7 @@ static const void* g_obj[N + 1];
 template <int I> struct FillObj { static void run(Inst& m) { g_obj[I] = &m.access<St<I>>(); FillObj<I - 1>::run(m); } };
 template <> struct FillObj<-1> { static void run(Inst&) {} };
 // the const overload of access<T>() names the same objects
-template <int I> struct ConstObj { static int run(const Inst& m) { if (static_cast<const void*>(&m.access<St<I>>()) != g_obj[I]) return I; return ConstObj<I - 1>::run(m); } };
+template <int I> struct ConstObj { static int run(const Inst& m) { const St<I>& r = m.access<St<I>>(); if (static_cast<const void*>(&r) != g_obj[I]) return I; return ConstObj<I - 1>::run(m); } };
 template <> struct ConstObj<-1> { static int run(const Inst&) { return -1; } };
 
 // the type-parameterised forms of the same calls: what = 0 immediateChangeTo<T>(), 1 changeTo<T>(), 2 isActive<T>() (result in *out)
@@ -129,7 +129,7 @@ static void dispatch_sweep() {
 	FillObj<N - 1>::run(m);
 #if VX_HEAD
 	g_obj[N] = &m.access<Rt>();
-	{ const Inst& cm = m; if (static_cast<const void*>(&cm.access<Rt>()) != g_obj[N]) violation("access-identity", rp, "N=%d: access<Head>() on a const machine is not the object access<Head>() names on the machine itself", N); }
+	{ const Inst& cm = m; const Rt& rr = cm.access<Rt>(); if (static_cast<const void*>(&rr) != g_obj[N]) violation("access-identity", rp, "N=%d: access<Head>() on a const machine is not the object access<Head>() names on the machine itself", N); }
 #endif
 	{ const int bad = ConstObj<N - 1>::run(m); ++me().cases; if (bad >= 0) violation("access-identity", rp, "N=%d: access<St<%d>>() on a const machine is not the object whose callbacks run", N, bad); }
 	{ // activation: root entry guard + initial state's entry guard, root enter, state 0 enter
